@@ -152,7 +152,7 @@ CHECKS = {
         "oracle: exactly one canonical, true, minimum-size judgement per separable pair within the limit, none otherwise; "
         "repeated under several hash seeds. All name-ordered five- and six-node DAGs are screened with the oracle and those whose "
         "minimum separators lie upstream of the parents are explored; builder phase: every sequence of three edge insertions on "
-        "one live graph object, the independencies asked after every insertion.",
+        "one live graph object, the independencies asked after every insertion. Builder sequences also over three names with count-preserving edge moves as steps.",
         note="Trusted: path-definition separation oracle; k is read inclusively (docstring: longest set of conditions to investigate).",
         design="4/C15",
     ),
@@ -187,7 +187,7 @@ CHECKS = {
         text="Every ordered pair and conditioning set on every labelled ADMG up to 4 nodes (thorough: plus five-node graphs up "
         "to 6 edges), under all node-insertion permutations / reversed edge lists and several hash seeds, and after every step of every "
         "sequence of three edge insertions on one live graph object, is passed to the real are_d_separated and compared with the path definition of d-separation on the latent-expanded DAG; "
-        "the conditioning set is given as list, reversed tuple and (up to three nodes) frozenset and one-shot generator.",
+        "the conditioning set is given as list, reversed tuple and (up to three nodes) frozenset and one-shot generator. Builder sequences also over three names with count-preserving edge moves as steps.",
         note="Trusted: the path-definition oracle (mc/graphs.py dsep_paths), cross-checked against Bayes-ball in selftest.",
         design="4/C04",
     ),
